@@ -271,6 +271,25 @@ CLAIMED = {
              'sender) and d33e5be (a probe whose hook outlived a reconnect was written before the new bind response). No axioms.',
         technique='Coq proof: multiset invariant over all interleavings (merge relation), transition-system invariant for the bound gate, framing lemma from the command_length theorem; trace validation of real concurrent sessions',
         design='6 (C15)'),
+    'C01': dict(
+        text='Coq theorems (Props/C01.v) over the executable model of response handling, per-segment status, cumulated status and expiry '
+             '(Model/Handlers.v, Model/Correlator.v): for ONE segmented message of ANY number k>=2 of segments and ANY admissible interleaving of '
+             'its events (each segment stored after its write in the order sent, then accepted / rejected with any status / generic_nack / timed out) '
+             'the hooks see NO outcome while a segment is unprocessed and EXACTLY ONE once all are, carrying the message\'s log; it is the accepting '
+             'submit_sm_resp iff every segment was accepted, otherwise a failure (send_error, or a nack / error-status response) - by a phase invariant '
+             'over the correlator dictionaries with one lemma per event kind; the hook calls equal the specification event by event; a message that '
+             'is not segmented gets its response at once and its time-out through send_error. Tied to the code by driving the real '
+             '_handle_response / SimpleCorrelator (expiry through the real sweep) with histories of 1-5 concurrent messages incl. re-used 8-bit '
+             'references and comparing hook calls and all stores with the model; whole sessions on a virtual-time loop (real sender, SMSC '
+             'accepting/rejecting/nacking/ignoring segments, suspending hooks, connection loss, reference wrap, unbuildable messages) are checked '
+             'by an oracle: exactly one outcome per queued message, with its own log_id/extra_data and the right polarity.',
+        note='Trusted: Coq kernel, translator, harness. The theorem is for one message in isolation with distinct references among unfinished '
+             'messages; concurrent mixes, connection loss and the sender side (C06) are covered by the correspondence runs and the session oracle. '
+             'Eventual delivery of the time-out relies on correlator traffic driving the sweep (keep-alive). Outside: the C14 known finding '
+             '(response before put under write back-pressure: the message is then reported as timed out - still exactly one outcome). Proved for the '
+             'code after fixes 66de80c, d1270d3, 8306826, 93e2bc6, 057982f, 900ad9f. No axioms.',
+        technique='Coq proof: phase invariant over dict lookups with one lemma per event kind, induction over admissible event lists; PDU-level trace correspondence and session-level oracle on a virtual-time loop',
+        design='6 (C01)'),
 }
 
 PENDING_REASON = 'check not built yet in this round (planned, see DESIGN.md section 6); not claimed until its proof and correspondence run exist'
